@@ -1,7 +1,7 @@
 (* C18 — CurlyRouter and RouterJSR311 agree wherever both are specified. *)
 From Model Require Import Str Sexp Http Template Table Curly DetectRoute Jsr311 Router.
 From Spec Require Import RouteSpec RankSpec.
-From Proofs Require Import RouterProofs JsrOutcomeProofs AgreeProofs SameServiceProofs.
+From Proofs Require Import RouterProofs JsrOutcomeProofs AgreeProofs SameServiceProofs TwinProofs.
 
 (* The full statement: on the common fragment every request has the same outcome under
    both routers. *)
@@ -99,6 +99,24 @@ Theorem C18_agree_literal_roots : C18_agree_literal_roots_statement.
 Proof. exact routers_agree_literal_roots. Qed.
 Print Assumptions C18_agree_literal_roots.
 
+(* The strongest form: twins allowed.  Eligible routes need only be pairwise comparable under
+   literal-over-variable (c18_chain_weak: for any two, one is at least as specific as the other —
+   the complement is exactly K-C18-1's class of incomparable templates); routes of the same shape
+   tie on every count of either Less and are separated by the same comparison of their path
+   strings in both routers, which differ when (method, path) pairs are distinct. *)
+Definition C18_agree_final_statement : Prop :=
+  forall (O : oracles) (wss : list service) (req : request),
+    roots_literal wss = true -> roots_distinct wss = true -> c18_clean (rq_path req) = true ->
+    (forall w, detect_web_service O (tokenize (rq_path req)) wss = Some w ->
+       forallb (wf_route w) (s_routes w) = true /\ jsr_all_agree w = true
+       /\ forallb (jsr_names_agree w) (s_routes w) = true /\ c18_service_ok w = true
+       /\ distinct (map (route_key w) (s_routes w)) = true /\ c18_chain_weak O w req = true) ->
+    routed_equiv (route_request O {| t_router := Curly; t_services := wss |} req)
+                 (route_request O {| t_router := Jsr311; t_services := wss |} req).
+Theorem C18_agree_final : C18_agree_final_statement.
+Proof. exact routers_agree_final. Qed.
+Print Assumptions C18_agree_final.
+
 Definition C18_same_service_statement : Prop :=
   forall (O : oracles) (wss : list service) (p : str),
     roots_literal wss = true -> roots_distinct wss = true -> c18_clean p = true ->
@@ -127,3 +145,17 @@ Example C18_agree_example :
 Proof.
   intros w w2 p Hp. cbn in Hp. destruct Hp as [<-|[<-|[<-|[]]]]; vm_compute; repeat split; eexists; reflexivity.
 Qed.
+
+(* twins: /u/{a}/x and /u/{b}/x of one method differ only in the variable name; both routers run
+   the one with the greater path string *)
+Example C18_twins_example :
+  let w := {| s_root := L "/u"; s_routes := [mk 1 "GET" "/{a}/x"; mk 2 "GET" "/{b}/x"] |} in
+  let req := get "/u/7/x" in
+  roots_literal [w] = true /\ roots_distinct [w] = true /\ c18_clean (rq_path req) = true
+  /\ detect_web_service O0 (tokenize (rq_path req)) [w] = Some w
+  /\ forallb (wf_route w) (s_routes w) = true /\ jsr_all_agree w = true
+  /\ forallb (jsr_names_agree w) (s_routes w) = true /\ c18_service_ok w = true
+  /\ distinct (map (route_key w) (s_routes w)) = true /\ c18_chain_weak O0 w req = true
+  /\ c18_chain O0 w req = false
+  /\ (exists ps, route_request O0 {| t_router := Curly; t_services := [w] |} req = RInvoke w (mk 2 "GET" "/{b}/x") ps).
+Proof. vm_compute. repeat split; eexists; reflexivity. Qed.
